@@ -358,7 +358,13 @@ func (in *Interp) fail(n *Node, class, format string, a ...interface{}) {
 func (in *Interp) push(blocks map[string]*blockDef) {
 	in.scope = &frame{vars: map[string]interface{}{}, parent: in.scope, blocks: blocks}
 }
-func (in *Interp) pop() { in.scope = in.scope.parent }
+// pop is nil-safe: while a ModelError unwinds, deferred pops run against whatever scope a
+// content closure had switched to; try restores the real scope from its snapshot afterwards.
+func (in *Interp) pop() {
+	if in.scope != nil {
+		in.scope = in.scope.parent
+	}
+}
 
 func (in *Interp) tick() {
 	in.steps++
